@@ -5,22 +5,23 @@ import Qv.Proofs.Results
 Only the property theorems and their non-vacuity examples (helper lemmas: `Qv/Proofs/Results.lean`).
 The model is `Qv.Model.Results` (`qubovert/sim/_anneal_results.py` as a state machine over two
 collections `cur`, `aux`); its tie to the code is the correspondence check `harness/c13.py`, which runs
-`step impl` with `impl = Impl.current`.
+`step impl` with `impl = Impl.fixed` — the code as it is after the upstream `fix:` commits 98630c1
+(item / slice assignment and deletion recompute `best`), 99d9853 (`extend` / `+=` accept an empty
+`AnnealResults` on either side) and 0225de2 (`n * res` returns an `AnnealResults`).
 
-The *current* code violates the property (DESIGN.md §10 D3): item / slice assignment and deletion leave
-`best` stale, `extend` / `+=` with an `AnnealResults` operand raise when either side is empty, and
-`n * res` returns a plain list.  Hence:
-
-* `inv_sequence_partial`, `no_spurious_error_partial`: what holds for the code as it is;
-* `*_breaks_inv`, `*_raises`, `rmul_returns_plain_list`: the negations, on concrete short histories
-  (these are the replays of the recorded findings);
-* `inv_sequence`, `no_spurious_error`: the full property for the repaired table `Impl.fixed`.
+* Headline (the property, for the code as it is): `derived_inv`, `inv_sequence`, `inv_sequence_start`
+  (T13.1), `no_spurious_error` (T13.2), `conversions_keep_values`, `toBoolean_toSpin`,
+  `toSpin_toBoolean`, `sort_sorted_perm` (T13.3).
+* Last section, **documentation of the code before the fix** (`Impl.beforeFix`; DESIGN.md §10 D3): what
+  held then (`inv_sequence_partial`, `no_spurious_error_partial`) and the machine-checked negations on
+  concrete short histories (`*_breaks_inv`, `*_raises`, `rmul_returns_plain_list`).  These histories are
+  the regression inputs in `corpus/C13/`; `counter_histories_repaired` shows each of them is sound now.
 -/
 namespace Qv.C13
 open Qv Qv.Res
 
-/-- the table the correspondence check validates against `/repo` is the current one -/
-theorem impl_is_current : impl = Impl.current := rfl
+/-- the table the correspondence check validates against `/repo` is the repaired one -/
+theorem impl_is_fixed : impl = Impl.fixed := rfl
 
 /-! ## concrete results used in the examples and the counter-histories -/
 
@@ -51,60 +52,13 @@ theorem derived_inv (s : Coll) :
 example : Inv (construct [rB, rA, rZ, rA]) ∧ (construct [rB, rA, rZ, rA]).best = some rZ := by
   decide +kernel
 
-/-- **T13.1 for the code as it is (partial).**  From any state in which both collections satisfy the
-invariant, every sequence — of any length — of operations other than `res[i] = r`, `del res[i]`,
-`res[a:b] = l`, `del res[a:b]` leaves both collections satisfying it (an operation that raises leaves
-the state the code leaves).  Weaker than the property: the four excluded operations break it, see
-`setItem_breaks_inv` … `delSlice_breaks_inv`. -/
-theorem inv_sequence_partial (ops : List Op) (m : M) (hops : ∀ op ∈ ops, op.safe = true)
-    (hm : Inv2 m) : Inv2 (run Impl.current ops m) :=
-  run_inv Impl.current current_extOK ops m (Or.inl hops) hm
-
-/-- in particular from `AnnealResults(init)` -/
-theorem inv_sequence_partial_start (init : List Result) (ops : List Op)
-    (hops : ∀ op ∈ ops, op.safe = true) : Inv (run Impl.current ops (start init)).cur :=
-  (inv_sequence_partial ops _ hops (inv2_start init)).1
-
-example : (∀ op ∈ [Op.append rB, .insert 0 rA, .pop (-1), .extendAR [rZ], .remove rZ, .reverse,
-      .stash, .clear, .iaddAux, .mul 2], op.safe = true) ∧
-    (run Impl.current [.append rB, .insert 0 rA, .pop (-1), .extendAR [rZ], .remove rZ, .reverse,
-      .stash, .clear, .iaddAux, .mul 2] (start [rA])).cur.best = none := by
-  decide +kernel
-
-/-- `res = AnnealResults([A]); res[0] = B`: `best` is still `A`, which is no longer an element -/
-theorem setItem_breaks_inv : ¬ Inv (run Impl.current [.setItem 0 rB] (start [rA])).cur := by
-  decide +kernel
-
-/-- `res = AnnealResults([B]); res[0] = A`: `best` misses the new minimum -/
-theorem setItem_breaks_inv' : ¬ Inv (run Impl.current [.setItem 0 rA] (start [rB])).cur := by
-  decide +kernel
-
-/-- `res = AnnealResults([A]); del res[0]`: empty, but `best` is `A` -/
-theorem delItem_breaks_inv : ¬ Inv (run Impl.current [.delItem 0] (start [rA])).cur := by
-  decide +kernel
-
-/-- `res = AnnealResults(); res[0:1] = [B]`: non-empty, but `best` is `None` -/
-theorem setSlice_breaks_inv :
-    ¬ Inv (run Impl.current [.setSlice ⟨some 0, some 1, none⟩ [rB]] (start [])).cur := by
-  decide +kernel
-
-/-- `res = AnnealResults([A]); del res[:1]`: empty, but `best` is `A` -/
-theorem delSlice_breaks_inv :
-    ¬ Inv (run Impl.current [.delSlice ⟨none, some 1, none⟩] (start [rA])).cur := by
-  decide +kernel
-
-/-- a stale `best` is contagious: extending a sound collection by one whose `best` is stale breaks
-the receiver (`aux = AnnealResults([Z, B]); del aux[0]; res.extend(aux)`) -/
-theorem stale_operand_breaks_inv :
-    ¬ Inv (run Impl.current [.swap, .construct [rZ, rB], .delItem 0, .swap, .extendAux] (start [rA])).cur := by
-  decide +kernel
-
-/-- **T13.1 (full) for the repaired code.**  With `None`-aware `extend` / `+=` and `__setitem__` /
-`__delitem__` recomputing `best`, *every* sequence of *all* operations keeps the invariant of both
-collections. -/
+/-- **T13.1.**  From any state in which both collections satisfy the invariant, *every* sequence — of
+any length — of *all* 36 operations leaves both collections satisfying it (an operation that raises
+leaves the state the code leaves). -/
 theorem inv_sequence (ops : List Op) (m : M) (hm : Inv2 m) : Inv2 (run Impl.fixed ops m) :=
   run_inv Impl.fixed fixed_extOK ops m (Or.inr fixed_mutOK) hm
 
+/-- in particular from `AnnealResults(init)`, for every `init` -/
 theorem inv_sequence_start (init : List Result) (ops : List Op) :
     Inv (run Impl.fixed ops (start init)).cur :=
   (inv_sequence ops _ (inv2_start init)).1
@@ -115,45 +69,16 @@ example : (run Impl.fixed [.setItem 0 rB, .setSlice ⟨some 0, some 0, none⟩ [
 
 /-! ## T13.2 — no spurious exceptions -/
 
-/-- **T13.2 (full) for the repaired code**: from a state satisfying the invariant no operation raises
-— or returns a plain list — on operands a plain `list` accepts. -/
+/-- **T13.2.**  From a state satisfying the invariant no operation raises — or returns a plain list —
+on operands a plain `list` accepts (`listAccepts`: `remove` needs the element, `pop` / `l[i]` a valid
+index, slices a non-zero step and a fitting length; the conversions need states in their domain). -/
 theorem no_spurious_error (op : Op) (m : M) (hm : Inv2 m) (hacc : listAccepts op m = true) :
     (step Impl.fixed op m).2.isOk = true :=
   step_isOk_fixed op m hm hacc
 
-/-- **T13.2 for the code as it is (partial)**: the only failures are `n * res` and `extend` / `+=`
-with an `AnnealResults` operand when the receiver or the operand is empty. -/
-theorem no_spurious_error_partial (op : Op) (m : M) (hm : Inv2 m) (hacc : listAccepts op m = true)
-    (hr : ∀ n, op ≠ .rmul n)
-    (hne : ∀ o, op.arOperand m = some o → m.cur.items ≠ [] ∧ o.items ≠ []) :
-    (step Impl.current op m).2.isOk = true :=
-  step_isOk_current op m hm hacc hr hne
-
-example : Inv2 (start [rA, rB]) ∧ listAccepts (.extendAR [rZ]) (start [rA, rB]) = true ∧
-    (∀ o, (Op.extendAR [rZ]).arOperand (start [rA, rB]) = some o →
-      (start [rA, rB]).cur.items ≠ [] ∧ o.items ≠ []) := by
-  refine ⟨by decide +kernel, rfl, ?_⟩
-  intro o h
-  simp only [Op.arOperand, Option.some.injEq] at h
-  subst h
-  exact ⟨by decide +kernel, by decide +kernel⟩
-
-/-- `AnnealResults([A]).extend(AnnealResults())` raises `TypeError`; a list accepts the call -/
-theorem extend_empty_operand_raises :
-    (step Impl.current (.extendAR []) (start [rA])).2 = .raised .type ∧
-    listAccepts (.extendAR []) (start [rA]) = true := by decide +kernel
-
-/-- `AnnealResults().extend(AnnealResults([A]))` raises `AttributeError` -/
-theorem extend_empty_receiver_raises :
-    (step Impl.current (.extendAR [rA]) (start [])).2 = .raised .attr := by decide +kernel
-
-/-- `res = AnnealResults(); res += AnnealResults()` raises `TypeError` -/
-theorem iadd_empty_raises :
-    (step Impl.current (.iaddAR []) (start [])).2 = .raised .type := by decide +kernel
-
-/-- `2 * AnnealResults([A])` is a plain list -/
-theorem rmul_returns_plain_list :
-    (step Impl.current (.rmul 2) (start [rA])).2 = .plain [rA, rA] := by decide +kernel
+example : Inv2 (start []) ∧ listAccepts (.extendAR []) (start []) = true ∧
+    Inv2 (start [rA]) ∧ listAccepts (.setSlice ⟨none, none, some (-1)⟩ [rB]) (start [rA]) = true := by
+  decide +kernel
 
 /-! ## T13.3 — conversions and sort -/
 
@@ -207,5 +132,110 @@ theorem sort_sorted_perm (s : Coll) :
 example : ((construct [rB, rA]).sort false).items = [rA, rB] := by
   simp [Coll.sort, sortItems, construct_items, List.mergeSort, List.MergeSort.Internal.splitInTwo,
     rA, rB]
+
+/-! ## Documentation: the code *before* the fix (`Impl.beforeFix`)
+
+Nothing below is about the code as it is.  It records, machine-checked, what the three `fix:` commits
+repaired: the partial statements that held before, and the concrete histories on which the property
+failed (the former known findings `C13:setitem-stale-best`, `C13:delitem-stale-best`,
+`C13:slice-assign-stale-best`, `C13:slice-delete-stale-best`, `C13:extend-with-empty-AnnealResults`,
+`C13:iadd-with-empty-AnnealResults`, `C13:rmul-returns-plain-list`).  The harness keeps these
+signatures, so a relapse is reported under the same name. -/
+
+/-- **(before the fix) T13.1, partial.**  From any state in which both collections satisfy the
+invariant, every sequence — of any length — of operations other than `res[i] = r`, `del res[i]`,
+`res[a:b] = l`, `del res[a:b]` leaves both collections satisfying it (an operation that raises leaves
+the state the code leaves).  Weaker than the property: the four excluded operations break it, see
+`setItem_breaks_inv` … `delSlice_breaks_inv`. -/
+theorem inv_sequence_partial (ops : List Op) (m : M) (hops : ∀ op ∈ ops, op.safe = true)
+    (hm : Inv2 m) : Inv2 (run Impl.beforeFix ops m) :=
+  run_inv Impl.beforeFix beforeFix_extOK ops m (Or.inl hops) hm
+
+/-- in particular from `AnnealResults(init)` -/
+theorem inv_sequence_partial_start (init : List Result) (ops : List Op)
+    (hops : ∀ op ∈ ops, op.safe = true) : Inv (run Impl.beforeFix ops (start init)).cur :=
+  (inv_sequence_partial ops _ hops (inv2_start init)).1
+
+example : (∀ op ∈ [Op.append rB, .insert 0 rA, .pop (-1), .extendAR [rZ], .remove rZ, .reverse,
+      .stash, .clear, .iaddAux, .mul 2], op.safe = true) ∧
+    (run Impl.beforeFix [.append rB, .insert 0 rA, .pop (-1), .extendAR [rZ], .remove rZ, .reverse,
+      .stash, .clear, .iaddAux, .mul 2] (start [rA])).cur.best = none := by
+  decide +kernel
+
+/-- `res = AnnealResults([A]); res[0] = B`: `best` is still `A`, which is no longer an element -/
+theorem setItem_breaks_inv : ¬ Inv (run Impl.beforeFix [.setItem 0 rB] (start [rA])).cur := by
+  decide +kernel
+
+/-- `res = AnnealResults([B]); res[0] = A`: `best` misses the new minimum -/
+theorem setItem_breaks_inv' : ¬ Inv (run Impl.beforeFix [.setItem 0 rA] (start [rB])).cur := by
+  decide +kernel
+
+/-- `res = AnnealResults([A]); del res[0]`: empty, but `best` is `A` -/
+theorem delItem_breaks_inv : ¬ Inv (run Impl.beforeFix [.delItem 0] (start [rA])).cur := by
+  decide +kernel
+
+/-- `res = AnnealResults(); res[0:1] = [B]`: non-empty, but `best` is `None` -/
+theorem setSlice_breaks_inv :
+    ¬ Inv (run Impl.beforeFix [.setSlice ⟨some 0, some 1, none⟩ [rB]] (start [])).cur := by
+  decide +kernel
+
+/-- `res = AnnealResults([A]); del res[:1]`: empty, but `best` is `A` -/
+theorem delSlice_breaks_inv :
+    ¬ Inv (run Impl.beforeFix [.delSlice ⟨none, some 1, none⟩] (start [rA])).cur := by
+  decide +kernel
+
+/-- a stale `best` is contagious: extending a sound collection by one whose `best` is stale breaks
+the receiver (`aux = AnnealResults([Z, B]); del aux[0]; res.extend(aux)`) -/
+theorem stale_operand_breaks_inv :
+    ¬ Inv (run Impl.beforeFix [.swap, .construct [rZ, rB], .delItem 0, .swap, .extendAux] (start [rA])).cur := by
+  decide +kernel
+
+/-- **(before the fix) T13.2, partial**: the only failures are `n * res` and `extend` / `+=`
+with an `AnnealResults` operand when the receiver or the operand is empty. -/
+theorem no_spurious_error_partial (op : Op) (m : M) (hm : Inv2 m) (hacc : listAccepts op m = true)
+    (hr : ∀ n, op ≠ .rmul n)
+    (hne : ∀ o, op.arOperand m = some o → m.cur.items ≠ [] ∧ o.items ≠ []) :
+    (step Impl.beforeFix op m).2.isOk = true :=
+  step_isOk_beforeFix op m hm hacc hr hne
+
+example : Inv2 (start [rA, rB]) ∧ listAccepts (.extendAR [rZ]) (start [rA, rB]) = true ∧
+    (∀ o, (Op.extendAR [rZ]).arOperand (start [rA, rB]) = some o →
+      (start [rA, rB]).cur.items ≠ [] ∧ o.items ≠ []) := by
+  refine ⟨by decide +kernel, rfl, ?_⟩
+  intro o h
+  simp only [Op.arOperand, Option.some.injEq] at h
+  subst h
+  exact ⟨by decide +kernel, by decide +kernel⟩
+
+/-- `AnnealResults([A]).extend(AnnealResults())` raises `TypeError`; a list accepts the call -/
+theorem extend_empty_operand_raises :
+    (step Impl.beforeFix (.extendAR []) (start [rA])).2 = .raised .type ∧
+    listAccepts (.extendAR []) (start [rA]) = true := by decide +kernel
+
+/-- `AnnealResults().extend(AnnealResults([A]))` raises `AttributeError` -/
+theorem extend_empty_receiver_raises :
+    (step Impl.beforeFix (.extendAR [rA]) (start [])).2 = .raised .attr := by decide +kernel
+
+/-- `res = AnnealResults(); res += AnnealResults()` raises `TypeError` -/
+theorem iadd_empty_raises :
+    (step Impl.beforeFix (.iaddAR []) (start [])).2 = .raised .type := by decide +kernel
+
+/-- `2 * AnnealResults([A])` is a plain list -/
+theorem rmul_returns_plain_list :
+    (step Impl.beforeFix (.rmul 2) (start [rA])).2 = .plain [rA, rA] := by decide +kernel
+
+/-- every one of the counter-histories above is sound for the code as it is -/
+theorem counter_histories_repaired :
+    Inv (run Impl.fixed [.setItem 0 rB] (start [rA])).cur ∧
+    Inv (run Impl.fixed [.setItem 0 rA] (start [rB])).cur ∧
+    Inv (run Impl.fixed [.delItem 0] (start [rA])).cur ∧
+    Inv (run Impl.fixed [.setSlice ⟨some 0, some 1, none⟩ [rB]] (start [])).cur ∧
+    Inv (run Impl.fixed [.delSlice ⟨none, some 1, none⟩] (start [rA])).cur ∧
+    Inv (run Impl.fixed [.swap, .construct [rZ, rB], .delItem 0, .swap, .extendAux] (start [rA])).cur ∧
+    (step Impl.fixed (.extendAR []) (start [rA])).2 = .ok none ∧
+    (step Impl.fixed (.extendAR [rA]) (start [])).2 = .ok none ∧
+    (step Impl.fixed (.iaddAR []) (start [])).2 = .ok none ∧
+    (step Impl.fixed (.rmul 2) (start [rA])) = (⟨construct [rA, rA], Coll.empty⟩, .ok none) := by
+  decide +kernel
 
 end Qv.C13
